@@ -77,7 +77,8 @@ func init() {
 		out = append(out, &vexplore.Scenario{Name: "payload-sequences", Mode: "enum", Reset: kit.ResetGlobals, Body: payloads, NeedCounters: []string{"empty-payload-delivered", "header-like-payload-delivered"}})
 		out = append(out, &vexplore.Scenario{Name: "bus-slow-peer-and-the-two-queue-lengths", Mode: "enum", Reset: kit.ResetGlobals, Body: busQueueLengths, NeedCounters: []string{"slow-peer-given-all-queued"}})
 		out = append(out, &vexplore.Scenario{Name: "bus-received-message-sent-on", Mode: "enum", Reset: kit.ResetGlobals, Body: busSendReceived, NeedCounters: []string{"sent-on-to-every-peer"}})
-		out = append(out, &vexplore.Scenario{Name: "star-chains-within-hop-limit", Mode: "enum", Reset: kit.ResetGlobals, Body: starChain, NeedCounters: []string{"far-end-reached-at-exact-limit"}})
+		out = append(out, &vexplore.Scenario{Name: "xbus-forwarder-builds-a-new-message", Mode: "enum", Reset: kit.ResetGlobals, Body: xbusRebuilt, NeedCounters: []string{"rebuilt-forwarded-to-the-others"}})
+		out = append(out, &vexplore.Scenario{Name: "star-chains-within-hop-limit", Mode: "enum", Reset: kit.ResetGlobals, Body: starChain, NeedCounters: []string{"far-end-reached-at-exact-limit", "passed-on-by-a-member-at-its-own-limit"}})
 		out = append(out, &vexplore.Scenario{Name: "star-hub-with-a-stalled-member", Mode: "enum", Reset: kit.ResetGlobals, Body: starStalled, NeedCounters: []string{"healthy-member-got-everything"}})
 		out = append(out, &vexplore.Scenario{Name: "once-after-reconnect", Mode: "enum", Reset: kit.ResetGlobals, Body: onceAfterReconnect, NeedCounters: []string{"reconnected-once"}})
 		out = append(out, &vexplore.Scenario{Name: "xbus-forward-after-peer-change", Mode: "enum", Reset: kit.ResetGlobals, Body: xbusPeerChange, NeedCounters: []string{"forwarded-to-newcomer"}})
@@ -427,6 +428,71 @@ func busSendReceived() {
 	kit.Must("Close", func() { _ = s.Close() })
 }
 
+// xbusRebuilt: a raw BUS forwarder receives a message and sends it on - the very object, or a new
+// message built from the received header and body (what a device that filters or rewrites traffic
+// does; the origin is what the header says, nothing else).  It goes to every peer except the one it
+// came from.  Another message, from another peer, was received and released just before, so that
+// recycled message objects are about.
+func xbusRebuilt() {
+	from := kit.ChooseFree(3)
+	rebuild := kit.ChooseFree(2) == 1
+	s, err := xbus.NewSocket()
+	must(err, "NewSocket")
+	ep := vt.Get("c08r")
+	must(s.Listen("vt://c08r"), "Listen")
+	var pipes []*vt.Pipe
+	for i := 0; i < 3; i++ {
+		pipes = append(pipes, ep.Connect())
+		kit.Quiesce()
+	}
+	recv := func() *mangos.Message {
+		rc := kit.Start("RecvMsg", func() (interface{}, error) { return s.RecvMsg() })
+		kit.Quiesce()
+		if !rc.Done() || rc.Err != nil {
+			kit.Failf("recv", "RecvMsg done=%v %s", rc.Done(), kit.ErrName(rc.Err))
+		}
+		return rc.Val.(*mangos.Message)
+	}
+	pipes[(from+1)%3].Deliver([]byte("noise-from-other"))
+	m0 := recv()
+	pipes[from].Deliver([]byte("forward-this-one"))
+	m := recv()
+	if string(m.Body) != "forward-this-one" || len(m.Header) != 4 {
+		kit.Failf("payload-differs", "received body %q header %x", m.Body, m.Header)
+	}
+	m0.Free()
+	if rebuild {
+		n := mangos.NewMessage(len(m.Body))
+		n.Header = append(n.Header, m.Header...)
+		n.Body = append(n.Body, m.Body...)
+		m.Free()
+		m = n
+	}
+	sc := kit.Start("SendMsg", func() (interface{}, error) { return nil, s.SendMsg(m) })
+	kit.Quiesce()
+	if !sc.Done() || sc.Err != nil {
+		kit.Failf("send-stuck", "SendMsg done=%v %s", sc.Done(), kit.ErrName(sc.Err))
+	}
+	for pi, p := range pipes {
+		var got []string
+		for _, sm := range p.SentLog() {
+			got = append(got, string(sm.Data))
+		}
+		want := "[forward-this-one]"
+		if pi == from {
+			want = "[]"
+		}
+		if fmt.Sprint(got) != want {
+			kit.Failf("forwarded-wrongly", "raw BUS forwarder, message from peer %d sent on (%s): peer %d was given %q, want %s", from, map[bool]string{false: "the received object", true: "a new message with the received header and body"}[rebuild], pi, got, want)
+		}
+	}
+	if rebuild {
+		kit.Count("rebuilt-forwarded-to-the-others")
+	}
+	kit.Observe("%d %v", from, rebuild)
+	kit.Must("Close", func() { _ = s.Close() })
+}
+
 func clipq(s string) string {
 	if len(s) > 24 {
 		return s[:24] + "..."
@@ -438,15 +504,17 @@ func clipq(s string) string {
 // to exactly the number of hops the far end is away, a message from one end reaches every member
 // once; in particular the far end, n-1 hops away, when the limit is n-1.
 func starChain() {
-	type cfg struct{ n, ttl int }
-	cfgs := []cfg{{3, 0}, {3, 2}, {4, 3}, {5, 4}, {9, 0}, {4, 0}}
+	// only >= 0: that member alone has the hop limit set (the others keep the default of 8) - a
+	// member's limit decides what it accepts, not what it passes on
+	type cfg struct{ n, ttl, only int }
+	cfgs := []cfg{{3, 0, -1}, {3, 2, -1}, {4, 3, -1}, {5, 4, -1}, {9, 0, -1}, {4, 0, -1}, {3, 1, 1}, {4, 1, 1}, {4, 2, 1}, {4, 2, 2}, {5, 3, 2}}
 	c := cfgs[kit.ChooseFree(len(cfgs))]
 	from := kit.ChooseFree(2) // which end sends
 	socks := make([]mangos.Socket, c.n)
 	for i := range socks {
 		s, err := star.NewSocket()
 		must(err, "NewSocket")
-		if c.ttl > 0 {
+		if c.ttl > 0 && (c.only < 0 || c.only == i) {
 			must(s.SetOption(mangos.OptionTTL, c.ttl), "TTL")
 		}
 		socks[i] = s
@@ -481,11 +549,36 @@ func starChain() {
 		}
 		rc := kit.Start(fmt.Sprintf("Recv:%d", r), func() (interface{}, error) { x, err := kit.Recv(socks[r]); return string(x), err })
 		kit.Quiesce()
-		if dist <= limit {
+		reached := dist <= limit
+		if c.only >= 0 {
+			// every member on the way (and r itself) accepts what is within its own limit
+			reached = true
+			step := 1
+			if r < sender {
+				step = -1
+			}
+			for m := sender + step; m != r+step; m += step {
+				lm := 8
+				if m == c.only {
+					lm = c.ttl
+				}
+				dm := m - sender
+				if dm < 0 {
+					dm = -dm
+				}
+				if dm > lm {
+					reached = false
+				}
+			}
+			if reached && (r-c.only)*step > 0 && c.only != sender {
+				kit.Count("passed-on-by-a-member-at-its-own-limit")
+			}
+		}
+		if reached {
 			if !rc.Done() || rc.Err != nil || rc.Val.(string) != "along-the-chain" {
 				kit.Failf("chain-missing", "chain of %d STAR members, hop limit %d: the member %d hop(s) from the sender did not receive the message (Recv done=%v %s %q)", c.n, limit, dist, rc.Done(), kit.ErrName(rc.Err), rc.Val)
 			}
-			if dist == limit || dist == c.n-1 {
+			if c.only < 0 && (dist == limit || dist == c.n-1) {
 				kit.Count("far-end-reached-at-exact-limit")
 			}
 			r2 := kit.Start(fmt.Sprintf("Recv2:%d", r), func() (interface{}, error) { x, err := kit.Recv(socks[r]); return string(x), err })
